@@ -5,6 +5,7 @@ package c08
 import (
 	"bytes"
 	"fmt"
+	"io"
 	"os"
 	"reflect"
 	"runtime"
@@ -132,6 +133,29 @@ type recTarget struct {
 	mk   func() any
 }
 
+// yieldReader hands out its data in short reads and gives the processor away before each.
+type yieldReader struct {
+	data []byte
+	size int
+}
+
+func (r *yieldReader) Read(p []byte) (int, error) {
+	runtime.Gosched()
+	if len(r.data) == 0 {
+		return 0, io.EOF
+	}
+	n := r.size
+	if len(p) < n {
+		n = len(p)
+	}
+	if len(r.data) < n {
+		n = len(r.data)
+	}
+	copy(p, r.data[:n])
+	r.data = r.data[n:]
+	return n, nil
+}
+
 type tokens struct{ sb strings.Builder }
 
 func (h *tokens) Null()           { h.sb.WriteString("n,") }
@@ -162,6 +186,7 @@ var shelfData = alt.Decompose(&shelf{Name: "s", Items: map[string]*leaf{"a": {N:
 
 var opKinds = []string{
 	"oj.parse", "oj.parsestring", "oj.validate", "oj.tokenize", "sen.parse", "oj.unmarshal",
+	"oj.load", "oj.mustload", "oj.mustparse", "oj.parse.callback", "sen.parsereader", "sen.mustparsereader", "sen.mustparse", "sen.parse.callback",
 	"oj.json", "oj.marshal", "oj.write", "sen.string", "sen.bytes", "pretty.json", "pretty.sen",
 	"struct.oj.json", "struct.oj.marshal", "struct.sen.string", "struct.pretty", "struct.decompose", "named.oj.json", "named.decompose",
 	"alt.generify", "alt.alter", "alt.dup", "alt.recompose", "alt.recompose.cold",
@@ -181,7 +206,9 @@ func shared(k string) string {
 		return "recomposer"
 	case k == "oj.json" || k == "oj.marshal" || k == "oj.write" || k == "sen.string" || k == "sen.bytes" || k == "pretty.json" || k == "pretty.sen":
 		return "pooled-writer"
-	case k == "oj.parse" || k == "oj.parsestring" || k == "oj.validate" || k == "oj.tokenize" || k == "sen.parse":
+	case k == "oj.parse" || k == "oj.parsestring" || k == "oj.validate" || k == "oj.tokenize" || k == "sen.parse",
+		k == "oj.load", k == "oj.mustload", k == "oj.mustparse", k == "oj.parse.callback",
+		k == "sen.parsereader", k == "sen.mustparsereader", k == "sen.mustparse", k == "sen.parse.callback":
 		return "pooled-parser"
 	}
 	return "other"
@@ -236,6 +263,46 @@ func (e *env) call(op Op) (res string, buf []byte) {
 		h := &tokens{}
 		err := oj.Tokenize([]byte(text()), h)
 		return fmt.Sprintf("%s %v", h.sb.String(), err), nil
+	case "oj.load":
+		// the reader gives the processor away between short reads, the way a pipe or a socket does:
+		// whatever the call holds from a pool is held across them
+		v, err := oj.Load(&yieldReader{data: []byte(text()), size: 3 + op.X}, parseArgs(op)...)
+		return fmt.Sprintf("%s %v", canon.String(v, canon.Typed), err), nil
+	case "oj.mustload":
+		v := oj.MustLoad(&yieldReader{data: []byte(text()), size: 3 + op.X}, parseArgs(op)...)
+		return canon.String(v, canon.Typed), nil
+	case "oj.mustparse":
+		if op.X%2 == 0 {
+			return canon.String(oj.MustParseString(text(), parseArgs(op)...), canon.Typed), nil
+		}
+		return canon.String(oj.MustParse([]byte(text()), parseArgs(op)...), canon.Typed), nil
+	case "oj.parse.callback":
+		// several documents and a callback that gives the processor away in the middle of the call
+		var sb strings.Builder
+		cb := func(v any) bool {
+			runtime.Gosched()
+			sb.WriteString(canon.String(v, canon.Typed) + ";")
+			return false
+		}
+		_, err := oj.Parse([]byte(text()+"\n"+texts[(op.D+op.X)%len(texts)]+" "+text()), cb)
+		return fmt.Sprintf("%s %v", sb.String(), err), nil
+	case "sen.parsereader":
+		v, err := sen.ParseReader(&yieldReader{data: []byte(senTexts[op.D%len(senTexts)]), size: 3 + op.X}, parseArgs(op)...)
+		return fmt.Sprintf("%s %v", canon.String(v, canon.Typed), err), nil
+	case "sen.mustparsereader":
+		v := sen.MustParseReader(&yieldReader{data: []byte(senTexts[op.D%len(senTexts)]), size: 3 + op.X}, parseArgs(op)...)
+		return canon.String(v, canon.Typed), nil
+	case "sen.mustparse":
+		return canon.String(sen.MustParse([]byte(senTexts[op.D%len(senTexts)]), parseArgs(op)...), canon.Typed), nil
+	case "sen.parse.callback":
+		var sb strings.Builder
+		cb := func(v any) bool {
+			runtime.Gosched()
+			sb.WriteString(canon.String(v, canon.Typed) + ";")
+			return false
+		}
+		_, err := sen.Parse([]byte(senTexts[op.D%len(senTexts)]+" "+senTexts[(op.D+op.X)%len(senTexts)]), cb)
+		return fmt.Sprintf("%s %v", sb.String(), err), nil
 	case "sen.parse":
 		v, err := sen.Parse([]byte(senTexts[op.D%len(senTexts)]), parseArgs(op)...)
 		return fmt.Sprintf("%s %v", canon.String(v, canon.Typed), err), nil
